@@ -502,6 +502,7 @@ class CallsMixin(ExecBase):
             vals = [self.as_val(bound[a], st, node).any() for a in formals if a not in ("self", "cls")]
             f = z3.Function("fn." + c.opts["functional"], *([Any] * len(vals)), Any)
             res = from_any(f(*vals))
+            self.assume(st, res.any() != ABSENT)  # a function result is a Python value, never the `absent` marker
             for cl in c.ensures_:
                 self.assume(st, self.eval_clause(cl, bound, st, pre, {"result": res}))
             return res
@@ -860,6 +861,10 @@ class CallsMixin(ExecBase):
                 return Val("sti", z3.SetUnion(s, z3.Function("py.iset_of_list", ListS, ISetS)(l_))), VNone
             if name == "discard":
                 k = self.need_int(self.as_val(args[0], st, node), st, node)
+                return Val("sti", z3.Store(s, k, z3.BoolVal(False))), VNone
+            if name == "remove":
+                k = self.need_int(self.as_val(args[0], st, node), st, node)
+                self.may_raise(st, z3.Not(z3.Select(s, k)), Exc("KeyError"), node)
                 return Val("sti", z3.Store(s, k, z3.BoolVal(False))), VNone
             if name == "clear":
                 return Val("sti", EMPTY_ISET), VNone
